@@ -72,16 +72,36 @@ pub fn blocking_client(uri: &str, cfg: &ClientCfg) -> IppClient {
         b = b.http_header(k, v);
     }
     if let Some((u, p)) = &cfg.basic {
+        // half of the time the credentials replace earlier ones set on the same builder (a single-valued setting: the last call wins)
+        if u.len() % 2 == 0 {
+            b = b.basic_auth("decoy-user", "decoy-secret");
+        }
         b = b.basic_auth(u, p);
     }
     if let Some(t) = cfg.timeout_ms {
         b = b.request_timeout(std::time::Duration::from_millis(t));
     }
-    if let Some(f) = cfg.ignore_tls {
-        b = b.ignore_tls_errors(f);
-    }
-    if let Some(ca) = &cfg.ca {
-        b = b.ca_cert(ca);
+    // the order of the builder calls and earlier values of a single-valued flag must not matter: when the flag is to end up
+    // false, it is (for every other root) first switched on, the root is given, and then it is switched off again
+    match (cfg.ignore_tls, &cfg.ca) {
+        (Some(false), Some(ca)) if ca.len() % 2 == 0 => {
+            b = b.ignore_tls_errors(true);
+            b = b.ca_cert(ca);
+            b = b.ignore_tls_errors(false);
+        }
+        (Some(false), Some(ca)) => {
+            b = b.ca_cert(ca);
+            b = b.ignore_tls_errors(true);
+            b = b.ignore_tls_errors(false);
+        }
+        (f, ca) => {
+            if let Some(ca) = ca {
+                b = b.ca_cert(ca);
+            }
+            if let Some(f) = f {
+                b = b.ignore_tls_errors(f);
+            }
+        }
     }
     b.build()
 }
@@ -97,16 +117,36 @@ pub fn async_client(uri: &str, cfg: &ClientCfg) -> AsyncIppClient {
         b = b.http_header(k, v);
     }
     if let Some((u, p)) = &cfg.basic {
+        // half of the time the credentials replace earlier ones set on the same builder (a single-valued setting: the last call wins)
+        if u.len() % 2 == 0 {
+            b = b.basic_auth("decoy-user", "decoy-secret");
+        }
         b = b.basic_auth(u, p);
     }
     if let Some(t) = cfg.timeout_ms {
         b = b.request_timeout(std::time::Duration::from_millis(t));
     }
-    if let Some(f) = cfg.ignore_tls {
-        b = b.ignore_tls_errors(f);
-    }
-    if let Some(ca) = &cfg.ca {
-        b = b.ca_cert(ca);
+    // the order of the builder calls and earlier values of a single-valued flag must not matter: when the flag is to end up
+    // false, it is (for every other root) first switched on, the root is given, and then it is switched off again
+    match (cfg.ignore_tls, &cfg.ca) {
+        (Some(false), Some(ca)) if ca.len() % 2 == 0 => {
+            b = b.ignore_tls_errors(true);
+            b = b.ca_cert(ca);
+            b = b.ignore_tls_errors(false);
+        }
+        (Some(false), Some(ca)) => {
+            b = b.ca_cert(ca);
+            b = b.ignore_tls_errors(true);
+            b = b.ignore_tls_errors(false);
+        }
+        (f, ca) => {
+            if let Some(ca) = ca {
+                b = b.ca_cert(ca);
+            }
+            if let Some(f) = f {
+                b = b.ignore_tls_errors(f);
+            }
+        }
     }
     b.build()
 }
